@@ -82,7 +82,7 @@ structure InCfg where
   name : String                                   -- identity of the wrapped function (journal)
   keys : Args → Option (Key × List Key)           -- main key, fallback keys; `none`: key creation raises
   prepare : Option (Args → Val → Option Val)      -- data handler `prepare_input_for_recording`; inner `none`: raises
-  restore : Args → Val → Val                      -- data handler `restore_input_from_recording` (identity without one)
+  restore : Args → Val → Out                      -- data handler `restore_input_from_recording` (`.ret` without one; may raise)
   runOriginal : Bool                              -- run_intercepted_when_missing
   substitute : Option (Args → Out)                -- value_when_missing (constant or callable)
 
@@ -202,8 +202,8 @@ def doRecordData (s : St) (key : String) (v : Val) : St :=
   if inRecordingMode s then write s (.free key) (.raw v) else s
 
 /-- the value handed to the caller for a recorded envelope (`_playback_recorded_interception`) -/
-def envelopeOut (restore : Val → Val) : RVal → Out
-  | .value v => .ret (restore v)
+def envelopeOut (restore : Val → Out) : RVal → Out
+  | .value v => restore v
   | .exception t => .exc t
   | .sent _ _ => .exc "KeyError"
   | .prepared _ => .exc "KeyError"
@@ -236,7 +236,24 @@ def doPlayData (s : St) (key : String) : Out :=
     | some _ => .ret (.atom "<envelope>")
     | none => .exc "RecordingKeyError"
 
-/-- the interpreter: every decorator in every mode -/
+/-- what `_execute_func_and_record_interception` does with the outcome of an intercepted input (flag already reset) -/
+def afterInput (cfg : InCfg) (args : Args) (k0 : Key) (s : St) : Out → St
+  | .exc t => write s k0 (.exception t)
+  | .ret v =>
+    match cfg.prepare with
+    | none => write s k0 (.value v)
+    | some f =>
+      match f args v with
+      | some v' => write s k0 (.value v')
+      | none => doDiscard s
+
+/-- … and with the outcome of an intercepted output's body (no data handler on the result) -/
+def afterOutput (alias : String) (n : Nat) (s : St) : Out → St
+  | .exc t => write s (.outRes alias n) (.exception t)
+  | .ret v => write s (.outRes alias n) (.value v)
+
+/-- the interpreter: every decorator in every mode.  Every branch that runs a wrapped body has the shape
+`match exec sb body with | (s1, .out o) => exec (post o s1) (k o) | (s1, .interrupt i) => (postI s1, .interrupt i)`. -/
 def exec : St → Prog → St × End
   | s, .done e => (s, e)
   | s, .discard k => exec (doDiscard s) k
@@ -274,41 +291,32 @@ def exec : St → Prog → St × End
         | none =>
           -- recording: `_execute_func_and_record_interception`
           match exec (setInt (addJournal s (cfg.name, args)) true) body with
+          | (s1, .out o) => exec (afterInput cfg args k0 (setInt s1 false) o) (k o)
           | (s1, .interrupt i) => (setInt s1 false, .interrupt i)
-          | (s1, .out (.exc t)) => exec (write (setInt s1 false) k0 (.exception t)) (k (.exc t))
-          | (s1, .out (.ret v)) =>
-            match cfg.prepare with
-            | none => exec (write (setInt s1 false) k0 (.value v)) (k (.ret v))
-            | some f =>
-              match f args v with
-              | some v' => exec (write (setInt s1 false) k0 (.value v')) (k (.ret v))
-              | none => exec (doDiscard (setInt s1 false)) (k (.ret v))
   | s, .callOut cfg args body k =>
     if !shouldIntercept s then
       match exec (addJournal s (cfg.name, args)) body with
       | (s1, .out o) => exec s1 (k o)
       | (s1, .interrupt i) => (s1, .interrupt i)
     else
-      let n := cnt s.counter cfg.alias + 1
-      let s1 := recordOutput (bump s cfg.alias) cfg n args
-      if !shouldIntercept s1 then
+      if !shouldIntercept (recordOutput (bump s cfg.alias) cfg (cnt s.counter cfg.alias + 1) args) then
         -- the recording was discarded by a failing output handler: plain call
-        match exec (addJournal s1 (cfg.name, args)) body with
+        match exec (addJournal (recordOutput (bump s cfg.alias) cfg (cnt s.counter cfg.alias + 1) args) (cfg.name, args)) body with
         | (s2, .out o) => exec s2 (k o)
         | (s2, .interrupt i) => (s2, .interrupt i)
       else
-        match s1.playback with
+        match (recordOutput (bump s cfg.alias) cfg (cnt s.counter cfg.alias + 1) args).playback with
         | some r =>
-          match getD r.data (.outRes cfg.alias n) with
-          | some rv => exec s1 (k (envelopeOut (fun v => v) rv))
+          match getD r.data (.outRes cfg.alias (cnt s.counter cfg.alias + 1)) with
+          | some rv => exec (recordOutput (bump s cfg.alias) cfg (cnt s.counter cfg.alias + 1) args) (k (envelopeOut Out.ret rv))
           | none =>
-            if cfg.failOnMissing then exec s1 (k (.exc "RecordingKeyError"))
-            else exec s1 (k (.ret cfg.default))
+            if cfg.failOnMissing then
+              exec (recordOutput (bump s cfg.alias) cfg (cnt s.counter cfg.alias + 1) args) (k (.exc "RecordingKeyError"))
+            else exec (recordOutput (bump s cfg.alias) cfg (cnt s.counter cfg.alias + 1) args) (k (.ret cfg.default))
         | none =>
-          match exec (setInt (addJournal s1 (cfg.name, args)) true) body with
+          match exec (setInt (addJournal (recordOutput (bump s cfg.alias) cfg (cnt s.counter cfg.alias + 1) args) (cfg.name, args)) true) body with
+          | (s2, .out o) => exec (afterOutput cfg.alias (cnt s.counter cfg.alias + 1) (setInt s2 false) o) (k o)
           | (s2, .interrupt i) => (setInt s2 false, .interrupt i)
-          | (s2, .out (.exc t)) => exec (write (setInt s2 false) (.outRes cfg.alias n) (.exception t)) (k (.exc t))
-          | (s2, .out (.ret v)) => exec (write (setInt s2 false) (.outRes cfg.alias n) (.value v)) (k (.ret v))
 
 /-- `_execute_operation_func`: run the operation, capture its result / exception as the implicit output -/
 def execOperationFunc (s : St) (p : Prog) : St × End :=
@@ -396,6 +404,11 @@ def finishRecording (ao : AliasOracle) (cfg : OpCfg) (s : St) (excFlag : Option 
       let m := postMeta ao cfg a.data excFlag ((tEnd : Int) - (tStart : Int))
       saveRecording s3 cfg { id := a.id, data := a.data, md := m }
 
+/-- `create_new_recording` + registration of the active recording in `start_recording` -/
+def startRec (cfg : OpCfg) (s : St) : St :=
+  addLog { s with active := some { id := s.nextId, data := [], params := cfg.params }, nextId := s.nextId + 1 }
+    (.create s.nextId)
+
 /-- the `@operation` decorator -/
 def runOperation (ao : AliasOracle) (cfg : OpCfg) (s : St) (p : Prog) : St × End :=
   if inPlaybackMode s then execOperationFunc s p
@@ -405,9 +418,7 @@ def runOperation (ao : AliasOracle) (cfg : OpCfg) (s : St) (p : Prog) : St × En
     match s.active with
     | some _ => (s, .out (.exc "AssertionError"))   -- another recording is already running (K6)
     | none =>
-      let s0 := addLog { s with active := some { id := s.nextId, data := [], params := cfg.params },
-                                nextId := s.nextId + 1 } (.create s.nextId)
-      let (s1, tStart) := tick s0
+      let (s1, tStart) := tick (startRec cfg s)
       let (s2, e) := execOperationFunc s1 p
       let excFlag := match e with
         | .out (.ret _) => some false
@@ -472,5 +483,33 @@ def runPlain : List (String × Args) → Prog → List (String × Args) × End
 /-- idle: neither recording nor replaying, no sticky force, numbering restarted, suppression flag clear -/
 def St.Idle (s : St) : Prop :=
   s.active = none ∧ s.forced = false ∧ s.counter = [] ∧ s.playback = none ∧ s.playbackOutputs = [] ∧ s.inInt = false
+
+/-! ### histories of runs on one recorder -/
+inductive Run where
+  | op (cfg : OpCfg) (p : Prog)
+  | play (cfg : OpCfg) (id : Nat) (p : Prog)
+  | enable
+  | disable
+
+inductive RunResult where
+  | op (e : End)
+  | play (r : PlayResult)
+  | unit
+
+def execRun (ao : AliasOracle) (s : St) : Run → St × RunResult
+  | .op cfg p => let r := runOperation ao cfg s p; (r.1, .op r.2)
+  | .play cfg id p => let r := runPlay ao cfg s id p; (r.1, .play r.2)
+  | .enable => ({ s with enabled := true }, .unit)
+  | .disable => ({ s with enabled := false }, .unit)
+
+def execAll (ao : AliasOracle) (s : St) : List Run → St
+  | [] => s
+  | r :: rest => execAll ao (execRun ao s r).1 rest
+
+/-- a fresh recorder carrying only the components that legitimately persist between runs: the enabled switch, the
+PRNG and clock positions, the cassette (id counter, stored recordings, call log) and the body journal -/
+def St.freshLike (s : St) : St :=
+  { enabled := s.enabled, draws := s.draws, drawn := s.drawn, clock := s.clock, nextId := s.nextId, store := s.store,
+    log := s.log, journal := s.journal }
 
 end PlaybackModel.Recorder
